@@ -619,3 +619,151 @@ Example C16_model_member_lookups_nonvacuous :
       (TPtr (TPtr X.Bridge.BrMembers.MWit.outer)) "X"
     = X.Ty.TableRules.Got (Some X.Bridge.BrMembers.MWit.tint).
 Proof. repeat split; vm_compute; reflexivity. Qed.
+
+(* ------------------------------------------------------------------------------------------
+   Front-end capstone (Bridge/BrCapstoneC16.v): the MAIN theorems once more, over the interpreters of the REGENERATED
+   source only - the hand model (create_types_table, field_type, method_type, check_access, doc_names) is an
+   intermediate term of the proofs:
+     source_table te perm Ft env          interpretation of the regenerated conf.CreateTypesTable (gen/GenTables.v)
+     source_check_access te F tb a        identifier by the table; every member step by the regenerated fieldType, the
+                                          callee by the regenerated methodType (gen/GenMembers.v); Some c = accepted as c
+     source_doc_keys perm permk tb        interpretation of the regenerated docgen.CreateDoc (gen/GenDocgen.v)
+   Decidable side conditions of the bridges: env_in_fragment, member_te_ok (implies te_plain), src_access_ok (every
+   type met on the path is plain, acyclic and within the fuel F), fuel_ok (acyclic embedding: on a cycle the real
+   FieldsFromStruct does not return), fuel bounds.  The carve-outs K_* are those of C16_accepted_resolves_*. *)
+Require Import X.Bridge.BrCapstoneC16.
+
+Theorem C16_source_accepted_resolves_path : forall te perm Ft F,
+  valid_perm perm -> wf_tenv te = true -> X.Ty.MemberRules.member_te_ok te = true -> X.Ty.TableRules.tables_fuel te <= Ft ->
+  forall T sn tb n0 ns tau keys k,
+  structish T = Some sn -> fuel_ok te (fuel0 te) (TStruct sn) = true -> X.Ty.TableRules.env_in_fragment (EStruct T) = true ->
+  source_table te perm Ft (EStruct T) = X.Ty.TableRules.Got tb ->
+  src_access_ok te F tb (APath n0 ns) = true ->
+  source_check_access te F tb (APath n0 ns) = Some (CVal tau) ->
+  (forall t0, check_ident tb n0 = LFound t0 -> path_scope te keys t0 ns = true) ->
+  S (List.length ns) * fuel0 te <= k ->
+  K_method_ident te T n0 = false ->
+  (forall t0, check_ident tb n0 = LFound t0 ->
+     path_K te (K_unexported_step te) t0 ns = false /\ path_K te (K_member_multi te) t0 ns = false) ->
+  exists v, run_access te false (populate te keys k T) (APath n0 ns) = Ok v /\ conforms v tau.
+Proof. exact src_accepted_resolves_path. Qed.
+Print Assumptions C16_source_accepted_resolves_path.
+
+Theorem C16_source_accepted_resolves_method : forall te perm Ft F,
+  valid_perm perm -> wf_tenv te = true -> X.Ty.MemberRules.member_te_ok te = true -> X.Ty.TableRules.tables_fuel te <= Ft ->
+  forall T sn tb n0 ns m c keys k,
+  structish T = Some sn -> fuel_ok te (fuel0 te) (TStruct sn) = true -> X.Ty.TableRules.env_in_fragment (EStruct T) = true ->
+  source_table te perm Ft (EStruct T) = X.Ty.TableRules.Got tb ->
+  src_access_ok te F tb (AMethod n0 ns m) = true ->
+  source_check_access te F tb (AMethod n0 ns m) = Some c ->
+  (forall t0, check_ident tb n0 = LFound t0 -> path_scope te keys t0 ns = true) ->
+  S (S (List.length ns)) * fuel0 te <= k ->
+  K_method_ident te T n0 = false ->
+  (forall t0, check_ident tb n0 = LFound t0 ->
+     path_K te (K_unexported_step te) t0 ns = false /\ path_K te (K_member_multi te) t0 ns = false) ->
+  (forall t0 t, check_ident tb n0 = LFound t0 -> source_check_path te F t0 ns = Some t ->
+     K_promoted_only te t m = false /\
+     (method_by_name te t m = None ->
+        exists sn' f, structish t = Some sn' /\ method_type te (fuel0 te) t m = LFound (f, false)
+                      /\ field_type te (fuel0 te) t m = LFound f
+                      /\ scope_step te keys t m = true /\ K_unexported_step te t m = false /\ K_member_multi te t m = false)) ->
+  exists v, run_access te false (populate te keys k T) (AMethod n0 ns m) = Ok v /\ cres_conforms v c.
+Proof. exact src_accepted_resolves_method. Qed.
+Print Assumptions C16_source_accepted_resolves_method.
+
+(* function position: FULL strength *)
+Theorem C16_source_accepted_resolves_func : forall te perm Ft F,
+  valid_perm perm -> wf_tenv te = true -> X.Ty.MemberRules.member_te_ok te = true -> X.Ty.TableRules.tables_fuel te <= Ft ->
+  forall T sn tb n c keys k,
+  structish T = Some sn -> fuel_ok te (fuel0 te) (TStruct sn) = true -> X.Ty.TableRules.env_in_fragment (EStruct T) = true ->
+  source_table te perm Ft (EStruct T) = X.Ty.TableRules.Got tb ->
+  source_check_access te F tb (AFunc n) = Some c -> fuel0 te <= k ->
+  exists v, run_access te false (populate te keys k T) (AFunc n) = Ok v /\ cres_conforms v c.
+Proof. exact src_accepted_resolves_func. Qed.
+Print Assumptions C16_source_accepted_resolves_func.
+
+(* struct completeness over the regenerated table: what Go resolves to an exported member is accepted, with that type *)
+Theorem C16_source_struct_complete : forall te perm Ft,
+  valid_perm perm -> wf_tenv te = true -> X.Ty.MemberRules.member_te_ok te = true -> X.Ty.TableRules.tables_fuel te <= Ft ->
+  forall T sn tb name p tau,
+  structish T = Some sn -> fuel_ok te (fuel0 te) (TStruct sn) = true -> X.Ty.TableRules.env_in_fragment (EStruct T) = true ->
+  source_table te perm Ft (EStruct T) = X.Ty.TableRules.Got tb ->
+  go_resolve te T name = RField p tau true ->
+  check_ident tb name = LFound tau.
+Proof. exact src_struct_complete. Qed.
+Print Assumptions C16_source_struct_complete.
+
+Theorem C16_source_struct_complete_methods : forall te perm Ft F,
+  valid_perm perm -> wf_tenv te = true -> X.Ty.MemberRules.member_te_ok te = true -> X.Ty.TableRules.tables_fuel te <= Ft ->
+  forall T sn tb name mt,
+  structish T = Some sn -> fuel_ok te (fuel0 te) (TStruct sn) = true -> X.Ty.TableRules.env_in_fragment (EStruct T) = true ->
+  source_table te perm Ft (EStruct T) = X.Ty.TableRules.Got tb ->
+  go_resolve te T name = RMethod mt ->
+  tget name tb = Some (method_tag mt) /\
+  (forall fn ret, is_func_type mt = Some fn -> call_type fn = Some ret ->
+     source_check_access te F tb (AFunc name) = Some (CCall fn true ret)).
+Proof. exact src_struct_complete_methods. Qed.
+Print Assumptions C16_source_struct_complete_methods.
+
+Theorem C16_source_ident_accepted_iff_go : forall te perm Ft,
+  valid_perm perm -> wf_tenv te = true -> X.Ty.MemberRules.member_te_ok te = true -> X.Ty.TableRules.tables_fuel te <= Ft ->
+  forall T sn tb name tau,
+  structish T = Some sn -> fuel_ok te (fuel0 te) (TStruct sn) = true -> X.Ty.TableRules.env_in_fragment (EStruct T) = true ->
+  source_table te perm Ft (EStruct T) = X.Ty.TableRules.Got tb ->
+  method_by_name te T name = None ->
+  (check_ident tb name = LFound tau <-> exists p, go_resolve te T name = RField p tau true).
+Proof. exact src_ident_accepted_iff_go. Qed.
+Print Assumptions C16_source_ident_accepted_iff_go.
+
+(* documentation: the regenerated CreateDoc run on the regenerated table lists exactly the accepted names and the
+   fixed operator / builtin names, without duplicates, for any visiting order of the Go maps *)
+Theorem C16_source_doc_exact : forall te perm Ft,
+  valid_perm perm -> X.Ty.MemberRules.member_te_ok te = true -> X.Ty.TableRules.tables_fuel te <= Ft ->
+  forall env tb dperm permk,
+  env_acyclic te env = true -> X.Ty.TableRules.env_in_fragment env = true ->
+  (forall l e, In e (dperm l) <-> In e l) -> (forall l k, In k (permk l) <-> In k l) ->
+  source_table te perm Ft env = X.Ty.TableRules.Got tb ->
+  exists keys, source_doc_keys dperm permk tb = X.Ty.DocRules.Got keys /\ NoDup keys /\
+    forall n, In n keys <-> ((exists tau, check_ident tb n = LFound tau) \/ In n doc_fixed).
+Proof. exact src_doc_exact. Qed.
+Print Assumptions C16_source_doc_exact.
+
+Theorem C16_source_table_perm_independent : forall te perm Ft,
+  valid_perm perm -> wf_tenv te = true -> X.Ty.MemberRules.member_te_ok te = true -> X.Ty.TableRules.tables_fuel te <= Ft ->
+  forall perm2 env tb1 tb2, valid_perm perm2 ->
+  env_acyclic te env = true -> X.Ty.TableRules.env_in_fragment env = true ->
+  match env with EMap _ entries => NoDup (map fst entries) | EStruct _ => True end ->
+  source_table te perm Ft env = X.Ty.TableRules.Got tb1 -> source_table te perm2 Ft env = X.Ty.TableRules.Got tb2 ->
+  forall n, tget n tb1 = tget n tb2.
+Proof. exact src_table_perm_independent. Qed.
+Print Assumptions C16_source_table_perm_independent.
+
+(* the regenerated terms accept exactly what the hand model accepts (the step the capstones go through) *)
+Theorem C16_source_check_access_is_model : forall te F tb a c, X.Ty.MemberRules.member_te_ok te = true ->
+  src_access_ok te F tb a = true -> source_check_access te F tb a = Some c -> check_access te tb a = LFound c.
+Proof. exact source_check_access_is_model. Qed.
+Print Assumptions C16_source_check_access_is_model.
+
+(* non-vacuity: ONE declaration set (pointer environment *Env, member P *Mid, Mid embeds *Inner, methods on both
+   receivers, an unexported field) meets all the hypotheses above at once: P.X, P.Hello(), Name(), Z *)
+Example C16_source_capstone_nonvacuous :
+  wf_tenv CWit.te = true /\ X.Ty.MemberRules.member_te_ok CWit.te = true /\ X.Ty.TableRules.tables_fuel CWit.te <= CWit.Ft /\
+  structish CWit.T = Some "Env" /\ fuel_ok CWit.te (fuel0 CWit.te) (TStruct "Env") = true /\
+  X.Ty.TableRules.env_in_fragment (EStruct CWit.T) = true /\
+  source_table CWit.te perm_rev CWit.Ft (EStruct CWit.T) = X.Ty.TableRules.Got CWit.tb /\ List.length CWit.tb = 3 /\
+  src_access_ok CWit.te CWit.F CWit.tb (APath "P" ["X"]) = true /\
+  source_check_access CWit.te CWit.F CWit.tb (APath "P" ["X"]) = Some (CVal CWit.tint) /\
+  check_ident CWit.tb "P" = LFound (TPtr (TStruct "Mid")) /\
+  path_scope CWit.te ["k"] (TPtr (TStruct "Mid")) ["X"] = true /\
+  K_method_ident CWit.te CWit.T "P" = false /\
+  path_K CWit.te (K_unexported_step CWit.te) (TPtr (TStruct "Mid")) ["X"] = false /\
+  path_K CWit.te (K_member_multi CWit.te) (TPtr (TStruct "Mid")) ["X"] = false /\
+  src_access_ok CWit.te CWit.F CWit.tb (AMethod "P" [] "Hello") = true /\
+  source_check_access CWit.te CWit.F CWit.tb (AMethod "P" [] "Hello")
+    = Some (CCall (TFunc [TPtr (TStruct "Mid")] false [TString]) true TString) /\
+  K_promoted_only CWit.te (TPtr (TStruct "Mid")) "Hello" = false /\
+  source_check_access CWit.te CWit.F CWit.tb (AFunc "Name")
+    = Some (CCall (TFunc [TPtr (TStruct "Env")] false [TString]) true TString) /\
+  go_resolve CWit.te CWit.T "Z" = RField [1] TBool true /\
+  source_doc_keys perm_rev (@rev string) CWit.tb <> X.Ty.DocRules.Wrong.
+Proof. exact src_capstone_hypotheses_inhabited. Qed.
